@@ -152,7 +152,10 @@ def run(res):
         "rule": "seq: restored tracker with window 0,1,2,3,5,98,99,100 (the harness knows 3 more blocks below it), height at "
                 "window, 0, 2013..2016, 4031, 2^32-2, 2^32-1 or random, regtest/testnet, 0-5 trusted oracles out of 8 (incl. a duplicated "
                 "key), attestation lists with all trusted / exactly the quorum / one distinct oracle below the quorum padded with "
-                "repeats of one attestation up to the quorum, trusted-untrusted mixes, random multisets, shuffled, strict or warn filter, deep reorgs allowed or not, tip / previous filter header zeroed, tip bits at, "
+                "repeats of one attestation up to the quorum, trusted-untrusted mixes, random multisets, shuffled, policy filter from {default, warn policy-chain-validated, error policy-* ahead of the permissive rule, error "
+                "policy-chain-validated ahead of warn *, warn policy-chain-validated ahead of error policy-*, error policy-chain-* "
+                "ahead of unrelated / broader warn rules} (the first matching rule decides: the model's warn flag is what the filter "
+                "does to the tag, the shadowed filters must behave exactly like the default one), deep reorgs allowed or not, tip / previous filter header zeroed, tip bits at, "
                 "/2, /4, /8 of the parent, 0-2 real channel monitors; 3-12 requests from {valid, streamed in 1-3 chunks, wrong "
                 "prev, bad PoW, 9 other-bits variants (x/2..x*8, around x/4), proof for another block, proof hiding a spend, "
                 "attestation for another previous filter header / height, bad signature, no attestation, mixed filter headers, "
